@@ -663,10 +663,14 @@ where
     }
 
     async fn init_new(&mut self) -> Result<()> {
-        let corrupted = Self::count_old_corrupted_blobs(&self.inner.config).await;
+        let (corrupted, max_corrupted_id) = Self::count_old_corrupted_blobs(&self.inner.config).await;
         self.inner
             .corrupted_blobs
             .store(corrupted, Ordering::Release);
+        // Ids of blobs moved to the corrupted dir stay reserved
+        self.inner
+            .next_blob_id
+            .fetch_max(max_corrupted_id.map_or(0, |i| i + 1), Ordering::AcqRel);
 
         let next = self.inner.next_blob_name()?;
         let mut safe = self.inner.safe.write().await;
@@ -680,7 +684,7 @@ where
 
     async fn init_from_existing(&mut self, files: Vec<DirEntry>, with_active: bool) -> Result<()> {
         trace!("init from existing: {:#?}", files);
-        let existed_corrupted_blob_count = Self::count_old_corrupted_blobs(&self.inner.config).await;
+        let (existed_corrupted_blob_count, max_corrupted_id) = Self::count_old_corrupted_blobs(&self.inner.config).await;
         let disk_access_sem = self.inner.get_dump_sem();
         let ReadBlobsResult { mut blobs, max_blob_id, new_corrupted_blob_count} = Self::read_blobs(
             &files,
@@ -694,6 +698,8 @@ where
         self.inner
             .corrupted_blobs
             .store(existed_corrupted_blob_count + new_corrupted_blob_count, Ordering::Release);
+        // Ids of blobs moved to the corrupted dir stay reserved
+        let max_blob_id = max_blob_id.max(max_corrupted_id);
         self.inner
             .next_blob_id
             .store(max_blob_id.map_or(0, |i| i + 1), Ordering::Release);
@@ -809,8 +815,10 @@ where
         Ok(ReadBlobsResult { blobs, new_corrupted_blob_count: corrupted, max_blob_id })
     }
 
-    async fn count_old_corrupted_blobs(config: &Config) -> usize {
+    /// Returns the count of blobs in the corrupted dir and the max id among them
+    async fn count_old_corrupted_blobs(config: &Config) -> (usize, Option<usize>) {
         let mut corrupted = 0;
+        let mut max_id: Option<usize> = None;
 
         if let Some(work_dir_path) = config.work_dir() {
             let mut corrupted_dir_path = work_dir_path.to_path_buf();
@@ -823,7 +831,7 @@ where
                         corrupted_dir_path.display(),
                         e
                     );
-                    return corrupted;
+                    return (corrupted, max_id);
                 }
                 let mut dir = dir.unwrap();
 
@@ -833,13 +841,16 @@ where
                         let extension = path.extension();
                         if let Some(BLOB_FILE_EXTENSION) = extension.and_then(|ext| ext.to_str()) {
                             corrupted += 1;
+                            if let Ok(file_name) = blob::FileName::from_path(&path) {
+                                max_id = max_id.max(Some(file_name.id()));
+                            }
                         }
                     }
                 }
             }
         }
 
-        corrupted
+        (corrupted, max_id)
     }
 
     fn should_save_corrupted_blob(error: &anyhow::Error) -> bool {
